@@ -63,6 +63,12 @@ def make_worlds(numpy, regions, quick, rng):
     hole = (float(Fraction('-125.25')), float(Fraction('31.65')))
     worlds.append(World('lattice3x3-hole/bound 5.95:8.95', r, boxes, [hole, (-120.0, 31.55), (-125.35, 20.0)], mags_a, True,
                         cells={1: 0, 2: 6}, bins={1: 3, 2: len(mags_a) - 1}))
+    # the same cells listed in reverse order: a second region for re-binding a catalog that was already gridded
+    org_r = org[::-1]
+    r_alt = CartesianGrid2D.from_origins(numpy.array(org_r), dh=dh, magnitudes=mags_a)
+    boxes_r = {q: (o[0], o[1], o[0] + dh, o[1] + dh) for q, o in enumerate(org_r)}
+    worlds[-1].alt = World('lattice3x3-hole-reversed/bound 5.95:8.95', r_alt, boxes_r, worlds[-1].outside, mags_a, True,
+                           cells={1: org_r.index(org[0]), 2: org_r.index(org[6])}, bins={1: 3, 2: len(mags_a) - 1})
     # W2: flagged lattice, explicit magnitude grid
     org2 = [(float(i), float(j)) for j in range(2) for i in range(4)]
     flags = numpy.array([1, 1, 0, 1, 1, 1, 1, 0], dtype=float)
@@ -83,6 +89,11 @@ def make_worlds(numpy, regions, quick, rng):
     boxes4 = {q: tuple(float(x) for x in qt.bounds[q]) for q in range(qt.num_nodes)}
     worlds.append(World('quadtree-z2/bound 4,5,6', qt, boxes4, [(10.0, 88.0), (-100.0, -89.0)], mags_b, True,
                         cells={1: 5, 2: 12}, bins={1: 1, 2: 2}, quad=True))
+    qk_r = [str(q) for q in qt.quadkeys][::-1]
+    qt_alt = QuadtreeGrid2D.from_quadkeys(qk_r, magnitudes=mags_b)
+    boxes4r = {q: tuple(float(x) for x in qt_alt.bounds[q]) for q in range(qt_alt.num_nodes)}
+    worlds[-1].alt = World('quadtree-z2-reversed/bound 4,5,6', qt_alt, boxes4r, worlds[-1].outside, mags_b, True,
+                           cells={1: qk_r.index(str(qt.quadkeys[5])), 2: qk_r.index(str(qt.quadkeys[12]))}, bins={1: 1, 2: 2}, quad=True)
     if True:      # (explicit magnitude grid on a quadtree region without bound magnitudes: found a defect in the thorough tier)
         qt3 = QuadtreeGrid2D.from_single_resolution(3)
         boxes5 = {q: tuple(float(x) for x in qt3.bounds[q]) for q in range(qt3.num_nodes)}
@@ -139,13 +150,7 @@ def run(chk, replay=None):
                 'below-minimum event')
     worlds = make_worlds(numpy, regions, quick, rng)
 
-    def compare_case(world, case, variant):
-        cat_abs = case['cat']
-        events = [(world.cells[c] if c else -1, world.bins[k] if k else -1, variant + 3 * i)
-                  for i, (c, k) in enumerate(cat_abs)]
-        cat = make_catalog(world, events, numpy)
-        obs = observe(world, cat, numpy)
-        chk.count(5)
+    def judge(world, case, obs):
         nb = len(world.edges)
         bad = []
 
@@ -188,6 +193,30 @@ def run(chk, replay=None):
             bad.append(('magnitude_counts', 'histogram differs', repr(got)[:200]))
         if obs['filt'] != [int(x) for x in expand_mc(case['filt'])]:
             bad.append(('filter', 'magnitude-range filter sizes differ', obs['filt']))
+        return bad
+
+    def compare_case(world, case, variant):
+        cat_abs = case['cat']
+        events = [(world.cells[c] if c else -1, world.bins[k] if k else -1, variant + 3 * i)
+                  for i, (c, k) in enumerate(cat_abs)]
+        cat = make_catalog(world, events, numpy)
+        obs = observe(world, cat, numpy)
+        chk.count(5)
+        bad = judge(world, case, obs)
+        alt = getattr(world, 'alt', None)
+        if alt is not None and not bad:
+            # the same catalog object re-bound to a region over the same cells in another order (and gridded again):
+            # every event must now be counted at its cell's index in the new region
+            if variant % 2 or world.quad:      # (filter_spatial does not support quadtree regions: C04's finding)
+                cat.region = alt.region
+            else:
+                r = guarded(cat.filter_spatial, region=alt.region, in_place=False)
+                if isinstance(r, Raised):
+                    return [('filter_spatial', 'raised', repr(r))]
+                cat.region = alt.region
+            obs2 = observe(alt, cat, numpy)
+            chk.count(5)
+            bad = [(fn + ' after re-binding the region', why, got) for fn, why, got in judge(alt, case, obs2)]
         return bad
 
     res = chk.tlc('Gridding', 'MC_Gridding.cfg' if quick else 'MCT_Gridding.cfg', timeout=900)
